@@ -134,7 +134,8 @@ func c05HeaderMuts(rng *rand.Rand, full bool) []c05Mut {
 func c05NTSMuts() []c05Mut {
 	names := []string{"unique id of another request", "sealed with the client-to-server key", "sealed with a random key", "no NTS fields at all",
 		"header bit flipped after sealing", "unique-id bit flipped after sealing", "nonce bit flipped", "ciphertext bit flipped", "no unique identifier field",
-		"authenticator ciphertext length word + 4", "extension length word 0", "replayed response of the previous exchange"}
+		"authenticator ciphertext length word + 4", "extension length word 0", "replayed response of the previous exchange",
+		"forged without any key: authenticator with an empty ciphertext", "replayed response with the outstanding unique id appended after the authenticator"}
 	var ms []c05Mut
 	for _, n := range names {
 		ms = append(ms, c05Mut{name: n, nts: n, forceBad: true})
@@ -257,6 +258,21 @@ func (p *c05Peer) handle(s *peer.NTPServer, dg []byte, from netip.AddrPort, rx t
 				full[48+36+6+1] += 4
 			case "extension length word 0":
 				full[48+2], full[48+3] = 0, 0
+			case "forged without any key: authenticator with an empty ciphertext":
+				f2 := append([]byte{}, full[:48+36]...)
+				f2 = append(f2, 0x04, 0x04, 0x00, 28, 0x00, 16, 0x00, 0x00)
+				f2 = append(f2, randBytes(p.rng, 16)...)
+				full = append(f2, 0, 0, 0, 0)
+			case "replayed response with the outstanding unique id appended after the authenticator":
+				if p.lastResp != nil {
+					full = append([]byte{}, p.lastResp...)
+					copy(full[24:32], b[24:32]) // origin of the outstanding request (breaks the old tag: header is covered)
+					full = append([]byte{}, p.lastResp...)
+					full = append(full, 0x01, 0x04, 0x00, 36)
+					full = append(full, rq.uid[:32]...)
+				} else {
+					full = b
+				}
 			case "replayed response of the previous exchange":
 				if p.lastResp != nil {
 					full = append([]byte{}, p.lastResp...)
